@@ -181,9 +181,12 @@ func runCheck(args []string) int {
 		if spec.Filter != "" && r.res.Script != nil {
 			var keep []*Obligation
 			for _, o := range r.res.Script.obls {
-				if (spec.Filter == "locks" && o.Kind == "lock") || strings.HasPrefix(o.Label, spec.Filter) || (o.Cover && o.Label == "pre") ||
-					((o.Kind == "inv-init" || o.Kind == "inv-pres") && strings.Contains(o.Label, ":"+spec.Filter)) {
-					keep = append(keep, o)
+				for _, f := range strings.Split(spec.Filter, ",") {
+					if (f == "locks" && o.Kind == "lock") || strings.HasPrefix(o.Label, f) || (o.Cover && o.Label == "pre") ||
+						((o.Kind == "inv-init" || o.Kind == "inv-pres") && strings.Contains(o.Label, ":"+f)) {
+						keep = append(keep, o)
+						break
+					}
 				}
 			}
 			r.res.Script.obls = keep
